@@ -7,7 +7,6 @@ From Coq Require Import NArith List Bool String.
 Import ListNotations.
 From Verif.model Require Import AgreementTypes.
 Open Scope N_scope.
-Open Scope string_scope.
 
 (* ---------- types.go: step.threshold / reachesQuorum ---------- *)
 Definition step_threshold (pm : params) (s : N) : option N :=
